@@ -112,12 +112,12 @@ func build(r Req, path string) *http.Request {
 func run(h http.Handler, rec *route.Recorder, req *http.Request) outcome {
 	rec.Take()
 	res := drive.Serve(h, req)
-	o := outcome{status: res.Rec.Code, header: flatHeader(res.Rec.Header()), body: res.Rec.Body.String()}
+	o := outcome{status: res.Rec.Code, header: flatHeader(res.Hdr), body: res.Rec.Body.String()}
 	if res.Panic != nil {
 		o.panicked = fmt.Sprint(res.Panic)
 		return o
 	}
-	o.trailer = flatHeader(res.Rec.Result().Trailer)
+	o.trailer = flatHeader(res.Trailer)
 	if calls := rec.Take(); len(calls) > 0 {
 		o.method = calls[0].Method
 		b, _ := proto.MarshalOptions{Deterministic: true}.Marshal(calls[0].Msg)
